@@ -320,18 +320,20 @@ def dense_misc(src, tree):
     fn = T.find_def(tree, "ArrayAttribute._expand", ATTR)
     n = fn.args.args[1].arg
     body = T.body_nodoc(fn)
-    ok = (len(body) == 2 and isinstance(body[0], ast.Assign) and T.dotted(body[0].targets[0]) == "self._data"
-          and isinstance(body[0].value, ast.Call) and T.dotted(body[0].value.func) == "np.concatenate"
-          and len(body[0].value.args) == 1 and isinstance(body[0].value.args[0], ast.Tuple)
-          and len(body[0].value.args[0].elts) == 2 and T.dotted(body[0].value.args[0].elts[0]) == "self._data"
-          and isinstance(body[1], ast.AugAssign) and T.dotted(body[1].target) == "self.n_elem"
-          and isinstance(body[1].op, (ast.Add, ast.Sub)))
+    # the two statements are independent of each other (np.full uses n and elemsize only): accept either order
+    asg = [st for st in body if isinstance(st, ast.Assign)]
+    aug = [st for st in body if isinstance(st, ast.AugAssign)]
+    ok = (len(body) == 2 and len(asg) == 1 and len(aug) == 1 and T.dotted(asg[0].targets[0]) == "self._data"
+          and isinstance(asg[0].value, ast.Call) and T.dotted(asg[0].value.func) == "np.concatenate"
+          and len(asg[0].value.args) == 1 and isinstance(asg[0].value.args[0], ast.Tuple)
+          and len(asg[0].value.args[0].elts) == 2 and T.dotted(asg[0].value.args[0].elts[0]) == "self._data"
+          and T.dotted(aug[0].target) == "self.n_elem" and isinstance(aug[0].op, (ast.Add, ast.Sub)))
     if not ok:
         T.fail(ATTR, fn, "dense _expand is not `self._data = np.concatenate((self._data, np.full(..))); self.n_elem += ..`")
-    env = {n: "n", "self.n_elem": "n_elem"}
-    out += "Definition dense_expand_rows (n_elem n : Z) : Z := %s.\n" % np_full_rows(ATTR, body[0].value.args[0].elts[1], env)
+    env = {n: "n"}      # the number of new rows must not depend on n_elem (it changes in between)
+    out += "Definition dense_expand_rows (n_elem n : Z) : Z := %s.\n" % np_full_rows(ATTR, asg[0].value.args[0].elts[1], env)
     out += "Definition dense_expand_n_elem (n_elem n : Z) : Z := (n_elem %s %s).\n" % (
-        "+" if isinstance(body[1].op, ast.Add) else "-", zexp(ATTR, body[1].value, env))
+        "+" if isinstance(aug[0].op, ast.Add) else "-", zexp(ATTR, aug[0].value, env))
     parts.append(("ArrayAttribute._expand", T.sha(src, fn)))
     # sparse _expand must do nothing
     fn = T.find_def(tree, "Attribute._expand", ATTR)
